@@ -127,7 +127,7 @@ theorem crash_only_in_refresh (sp : Spec) (w : World) (ev : Event)
               · rw [checkAffected_crashed]; exact hc
           · split
             · exact hc
-            · exact hc
+            · split <;> exact hc
     | rpcResult t ok =>
       apply contra; simp only [step]
       split
@@ -210,7 +210,7 @@ theorem no_crash_on_acyclic_partial (sp : Spec) (rk : String → Nat)
                 exact this hnone
               · rename_i L _
                 split at hs
-                · simp [hc] at hs
+                · split at hs <;> simp [hc] at hs
                 · split at hs
                   · rw [completeTask_crashed] at hs; simp [hc] at hs
                   · simp [hc] at hs
